@@ -438,7 +438,10 @@ def placement_keys(vt):
 
 # model anomalies that mean a control sequence of the output was cut or garbled (an image or part of the
 # screen is then not what the canvas says)
+# (every sequence urwid's draw_screen() can emit is known to the model, so an unknown CSI/ESC inside a redraw
+# is a cut one, e.g. "CSI 1 x" made of the head of "CSI 1 C" and the next text character)
 CORRUPT = {"aborted", "cancelled", "c0_in_csi", "bad_csi_char", "bad_params", "bad_sgr", "unknown_string", "unknown_esc",
+           "unknown_csi", "unknown_mode",
            "kitty_bad_control", "kitty_bad_base64", "kitty_bad_zlib", "kitty_size_mismatch", "kitty_missing_size",
            "kitty_chunk_extra_keys", "kitty_no_cell_footprint", "kitty_unknown_action", "kitty_unknown_delete",
            "kitty_bad_int", "iterm2_bad_base64", "iterm2_no_payload", "iterm2_size_mismatch", "iterm2_non_cell_size",
